@@ -133,6 +133,18 @@ func AnalyzeGo(src []byte) ([]GoField, error) {
 					gf.Literal = fl.Tag.Value
 					gf.Backquoted = strings.HasPrefix(fl.Tag.Value, "`")
 					gf.LitStart, gf.LitEnd = off(fl.Tag.Pos()), off(fl.Tag.End())
+					if gf.Backquoted {
+						// the scanner strips carriage returns from raw string VALUES, so End() falls short
+						// when the literal's source text contains one: find the closing backquote in the source
+						if e := strings.IndexByte(string(src[gf.LitStart+1:]), '`'); e >= 0 {
+							end := gf.LitStart + 1 + e + 1
+							if end != gf.LitEnd {
+								gf.LitEnd = end
+								gf.Grouped = true // outside the stated domain: processed or left alone, never corrupted
+								gf.Literal = string(src[gf.LitStart:gf.LitEnd])
+							}
+						}
+					}
 				}
 				if fl.Comment != nil {
 					gf.NComments = len(fl.Comment.List)
